@@ -275,3 +275,7 @@ def window_refresh_source(ck, P, R="GUARD/window-refresh-source"):
 # session 5 (round 11)
 EXPLANATION = EXPLANATION + " " + (
     'GUARD/window-refresh-source (round 11): deflate_stored refreshes the window from next_in minus the length of the copy (the last bytes consumed), which is what deflateGetDictionary and later matches see.')
+
+# session 5 (round 12)
+EXPLANATION = EXPLANATION + " " + (
+    'COPY/whole-buffer (round 12, shared with C14): a copied inflate stream keeps the whole window, so the dictionary is the same on the copy.')
